@@ -13,6 +13,11 @@ def _install():
     import re._parser as sp
     from crosshair.util import CrossHairValue
 
+    # ---- 0. no short-circuiting: CrossHair may replace a call to a function whose docstring it can read as a contract
+    #         (pregex's sphinx ':raises X:' lines) by an arbitrary value of the annotated return type ("proxyreturn"),
+    #         reconciled only at the end of the path. Every call is executed for real instead.
+    core.consider_shortcircuit = lambda *a, **k: None
+
     # ---- 1. relib: IGNORECASE mask of a literal must escape the literal ---------------------------
     def unicode_ignorecase_mask(cp):
         mask = relib._UNICODE_IGNORECASE_MASKS.get(cp)
@@ -41,6 +46,42 @@ def _install():
         return _orig_imp(top_patterns, flags, string, offset, allow_empty, ord=ord, chr=chr)
     if not os.environ.get('SYMX_NO_IMP'):
         relib._internal_match_patterns = _imp
+
+    # ---- 1c. relib's match object: span/start/end of a non-participating group are (-1, -1) / -1 and accept names;
+    #           groupdict maps names to TEXTS (stock: to spans, and drops non-participating groups); groups(default)
+    def _gidx(self, g):
+        if isinstance(g, str):
+            return self.re.groupindex[g]
+        return g
+
+    def _m_span(self, group=0):
+        sp_ = self._groups[_gidx(self, group)]
+        return (-1, -1) if sp_ is None else sp_
+
+    def _m_start(self, group=0):
+        return _m_span(self, group)[0]
+
+    def _m_end(self, group=0):
+        return _m_span(self, group)[1]
+
+    def _m_groups(self, default=None):
+        out = []
+        for i in range(1, len(self._groups)):
+            g = self.group(i)
+            out.append(default if g is None else g)
+        return tuple(out)
+
+    def _m_groupdict(self, default=None):
+        ret = {}
+        for name, idx in self.re.groupindex.items():
+            g = self.group(idx)
+            ret[name] = default if g is None else g
+        return ret
+    relib._Match.span = _m_span
+    relib._Match.start = _m_start
+    relib._Match.end = _m_end
+    relib._Match.groups = _m_groups
+    relib._Match.groupdict = _m_groupdict
 
     # ---- 2. CPython's regex parser: set membership / hashing realises symbolic characters -------------
     sp.DIGITS = tuple("0123456789")
@@ -129,6 +170,9 @@ def _install():
                 csym = isinstance(c, AnySymbolicStr)
             cps.append(ord(c) if csym else ord(c))
         with NoTracing():
+            for k, x in enumerate(cps):
+                if isinstance(x, SymbolicInt) and _z3.is_int_value(x.var):
+                    cps[k] = x.var.as_long()          # a constant in symbolic clothing
             allc = all(isinstance(x, int) and not isinstance(x, CrossHairValue) for x in cps)
             if allc:
                 return "".join(map(chr, cps))
@@ -269,6 +313,8 @@ def _install():
             return getattr(re, name)
 
         def compile(self, pattern, flags=0):
+            if _is_sym(pattern):
+                pattern = flatten(pattern)      # literals in harness code are symbolic-typed but concrete: no fork
             if not _is_sym(pattern):
                 return re.compile(pattern, flags)
             # symbolic pattern text: re.compile's verdict = the real parser's verdict + the look-behind width rule
